@@ -17,6 +17,13 @@ pub assume_specification<T: std::default::Default>[ std::mem::take ](x: &mut T) 
 pub assume_specification<T>[ Option::<T>::replace ](o: &mut Option<T>, v: T) -> (r: Option<T>)
   ensures r == *old(o), *final(o) == Some(v);
 
+pub assume_specification<T, F: FnOnce() -> T>[ Option::<T>::get_or_insert_with ](o: &mut Option<T>, f: F) -> (r: &mut T)
+  requires *old(o) is None ==> f.requires(()),
+  ensures
+    *old(o) is Some ==> *r == (*old(o))->0,
+    *old(o) is None ==> f.ensures((), *r),
+    *final(o) == Some(*final(r));
+
 // ---- notifications ----------------------------------------------------------------------------
 pub enum Ev<Item, Err> { Next(Item), Error(Err), Complete }
 
